@@ -173,6 +173,135 @@ def evaluate(contract, args: dict, allow_pre_fail=False):
     return obs
 
 
+class _NoSampler(Exception):
+    pass
+
+
+def native_make(shape, rng, args):
+    """a native random value of an input shape (bounded search around a failed obligation)"""
+    from pyvc import contract as K
+
+    if not isinstance(shape, K.Shape):
+        return shape
+    if isinstance(shape, K.Const):
+        return shape.v
+    if isinstance(shape, K.Value):
+        return shape.v
+    if isinstance(shape, K.Real):
+        for _ in range(200):
+            kind = rng.random()
+            if kind < 0.45:
+                v = rng.randint(-48, 48) / 8.0
+            elif kind < 0.7:
+                v = rng.randint(-640, 640) / 64.0
+            elif kind < 0.85:
+                v = float(rng.randint(-6, 6)) + rng.choice([0.0, 1e-9, -1e-9, 1e-5, -1e-5, 0.5, 0.499999, 0.500001])
+            else:
+                v = rng.uniform(-100, 100)
+            if shape.ge is not None and not v >= shape.ge:
+                continue
+            if shape.le is not None and not v <= shape.le:
+                continue
+            if shape.gt is not None and not v > shape.gt:
+                continue
+            if shape.lt is not None and not v < shape.lt:
+                continue
+            return v
+        lo = shape.ge if shape.ge is not None else shape.gt if shape.gt is not None else 0.0
+        hi = shape.le if shape.le is not None else shape.lt if shape.lt is not None else lo + 1.0
+        return lo + (hi - lo) * rng.choice([0.25, 0.5, 0.75, 1e-3])
+    if isinstance(shape, K.Int):
+        lo = shape.ge if shape.ge is not None else -9
+        hi = shape.le if shape.le is not None else lo + 24
+        return rng.randint(lo, hi)
+    if isinstance(shape, K.SymBoolShape):
+        return rng.random() < 0.5
+    if isinstance(shape, K.Tup):
+        vals = [native_make(e, rng, args) for e in shape.elems]
+        return list(vals) if shape.as_list else tuple(vals)
+    if isinstance(shape, K.Slice):
+        return slice(native_make(shape.start, rng, args), native_make(shape.stop, rng, args), native_make(shape.step, rng, args))
+    if isinstance(shape, K.Obj):
+        return NEW(shape.cls_ref, **{k: native_make(v, rng, args) for k, v in shape.fields.items()})
+    if isinstance(shape, K.Build):
+        return R(shape.fn_ref)(*[native_make(a, rng, args) for a in shape.args], **{k: native_make(v, rng, args) for k, v in shape.kwargs.items()})
+    if isinstance(shape, K.SeqOf):
+        n = rng.randint(shape.min_len, min(shape.max_len if shape.max_len is not None else 5, 5))
+        vals = [native_make(shape.elem, rng, args) for _ in range(n)]
+        return vals if shape.kind == "list" else tuple(vals)
+    if isinstance(shape, K.OneOf):
+        return native_make(rng.choice(shape.alts), rng, args)
+    if hasattr(shape, "native"):
+        return shape.native(rng, args)
+    if type(shape).__module__.startswith("contracts"):
+        # constant-valued shapes defined by contract modules (e.g. a fixed CRS object)
+        try:
+            return shape.make("native")
+        except Exception as e:  # pylint: disable=broad-except
+            raise _NoSampler(type(shape).__name__) from e
+    raise _NoSampler(type(shape).__name__)
+
+
+def native_sample(C, case_idx, seed, index):
+    import random
+
+    from pyvc import contract as K
+    from pyvc.engine_native import call_by_name_native
+
+    rng = random.Random(f"{seed}:{C.fn}:{case_idx}:{index}")
+    case = C.cases()[case_idx]
+    args = {}
+    for k, sh in case.items():
+        if not isinstance(sh, K.Derived):
+            args[k] = native_make(sh, rng, args)
+    for k, sh in case.items():
+        if isinstance(sh, K.Derived):
+            args[k] = call_by_name_native(sh.fn, args)
+    return {k: args[k] for k in case}
+
+
+def search(C, case_idx, seed, budget_s=20.0, max_n=4000):
+    """bounded native search of the input space of one contract case for a postcondition failure"""
+    import time
+
+    t0 = time.time()
+    tried = in_pre = 0
+    for index in range(max_n):
+        if time.time() - t0 > budget_s:
+            break
+        try:
+            args = native_sample(C, case_idx, seed, index)
+        except _NoSampler as e:
+            return dict(status=f"search-not-applicable: no native sampler for shape {e}", tried=tried)
+        except Exception:  # pylint: disable=broad-except
+            continue
+        tried += 1
+        try:
+            shown = {k: repr(v)[:200] for k, v in args.items()}
+            if C.native_oracle is not None:
+                # evaluate() defers to the oracle: honour the stated preconditions here (a clause
+                # that cannot be evaluated natively -- ghost state -- is left to the oracle)
+                from pyvc.engine_native import call_by_name_native
+
+                pre = True
+                for r in C.requires:
+                    try:
+                        pre = pre and bool(call_by_name_native(r, args))
+                    except Exception:  # pylint: disable=broad-except
+                        pass
+                if not pre:
+                    continue
+            obs = evaluate(C, args)
+        except Exception:  # pylint: disable=broad-except
+            continue
+        if not obs.get("pre_ok", True):
+            continue
+        in_pre += 1
+        if obs["failed_clauses"]:
+            return dict(status="reproduced", observed=obs, sample=shown, search_index=index, tried=tried, in_pre=in_pre)
+    return dict(status="not-reproduced", tried=tried, in_pre=in_pre)
+
+
 def main(path):
     sys.path.insert(0, HERE)
     with open(path) as f:
@@ -200,6 +329,18 @@ def main(path):
         out["status"] = "sample-index-not-found"
         print(json.dumps(out))
         return 2
+    if rp.get("search") is not None:
+        sr = rp["search"]
+        if sr.get("search_index") is not None:
+            args = native_sample(C, sr["case_index"], sr["seed"], sr["search_index"])
+            obs = evaluate(C, args)
+            out.update(observed=obs, sample={k: repr(v)[:200] for k, v in args.items()}, status="reproduced" if obs.get("pre_ok", True) and obs["failed_clauses"] else "not-reproduced")
+            print(json.dumps(out, default=str))
+            return 0 if out["status"] == "reproduced" else 1
+        res = search(C, sr["case_index"], sr["seed"], sr.get("budget_s", 20.0))
+        out.update(res)
+        print(json.dumps(out, default=str))
+        return 0 if res["status"] == "reproduced" else 1
     if rp.get("witness") is None:
         out["status"] = "no-witness"
         print(json.dumps(out))
